@@ -318,3 +318,6 @@ def _rejected_update(env, cfg):
     env.claim('rejected_update_leaves_count_and_statistics_untouched',
               And(*[eq(a, b) for a, b in zip(after, before)]),
               detail=f"{type(t).__name__}: the update raised at use #{k + 1} of the value")
+
+
+META['explanation'] += ' Further groups: arbitrary read orders of mean / var / std around updates; an update whose value cannot be processed (raises at its k-th arithmetic use) leaves count and statistics untouched.'
